@@ -47,6 +47,11 @@ def execute(case):
         from . import C19b
 
         return C19b.execute(case)
+    if case.get("engine") == "svh-realpool":
+        from . import C19b
+
+        v = C19b.real_pool_case(case)
+        return {"violation": v, "digest": "realpool", "stats": {}}
     try:
         res, w = hist.run_world("C19", case, mode="refine")
     except Violation as v:
@@ -57,6 +62,8 @@ def execute(case):
 
 
 def simplify(case):
+    if case.get("engine") == "svh-realpool":
+        return []
     if case.get("engine") == "svh":
         from . import C19b
 
@@ -68,7 +75,16 @@ def pre_batch(tier):
     from . import C19b
     from ..core import HarnessError
 
-    ok = C19b.real_pool_smoke()
-    if not ok:
-        raise HarnessError("real multiprocessing.Pool smoke: mp=True differs from mp=False")
-    return {"real_pool_smoke": "multiprocessing.Pool(2): get_svh(mp=True) == get_svh(mp=False) on one input"}
+    from ..core import run_isolated
+
+    viol = []
+    for k in range(3):
+        case = {"engine": "svh-realpool", "k": k}
+        st, v = run_isolated(C19b.real_pool_case, case)
+        if st != "ok":
+            raise HarnessError("real multiprocessing.Pool smoke failed to run: " + str(v))
+        if v:
+            viol.append((-1, k, case, v))
+            break
+    return {"real_pool_smoke": "multiprocessing.Pool(2 and 3 workers): get_svh(mp=True) == get_svh(mp=False) on three inputs",
+            "violations": viol}
